@@ -663,7 +663,9 @@ def dec_env(eng, it, w):
         t._fields["add_done_callback"] = lambda i2, cb: None
         return t
 
-    hass = Rec(fields={"bus": Rec(fields={"async_listen": async_listen}), "async_create_background_task": create_bg_task},
+    hass = Rec(fields={"bus": Rec(fields={"async_listen": async_listen,
+                                          "async_fire": lambda i, et, data=None, context=None: w.emit("bus.fire", et, data, context)}),
+                       "async_create_background_task": create_bg_task},
                name="hass")
     return amod, bmod, M, hass, live
 
